@@ -23,6 +23,8 @@ DECIDED = ('(a) on every path of Ombott.wsgi to a return, start_response is call
            'body is replaced by an empty list before start_response and the replaced body\'s close() is called once on that '
            'edge; (g) the close callback handed to _closeiter is getattr(out, "close") of the iterable consumed, '
            '_closeiter.close calls the callbacks and _closeiter.__iter__ only iterates (does not close).')
+DECIDED_MORE = ('Also: every iter()/next() of the handler iterable in _cast is inside the converting try; a textual status becomes the status line only through the separator test; the slice iterator of static_file delivers what its Content-Length announces.')
+DECIDED = DECIDED + ' ' + DECIDED_MORE
 NOT_DECIDED = ('header-list well-formedness beyond C14; close-exactly-once at run time for arbitrary servers; custom error '
                'handlers; behaviour after the first body chunk; the open set of handler programs.')
 ASSUMPTIONS = ['the server calls close() on the returned iterable once (PEP 3333)', 'start_response itself may raise: then the handler\'s call carries exc_info']
